@@ -1756,6 +1756,10 @@ class VM:
             return vm._call_function_internal(func, this_val, apply_args)
 
         def toString_fn(*args):
+            # The source text the function was written with, when it is known
+            text = getattr(getattr(func, "_compiled", None), "source_text", None)
+            if isinstance(text, str) and not hasattr(func, "_original_func"):
+                return text
             return f"function {func.name}() {{ [native code] }}"
 
         methods = {
